@@ -86,7 +86,13 @@ def sites_for(path):
           (" + 2", " + 1"), (" % 2 == 1", " % 2 == 0"), (">= 63", ">= 62"), (">= 63", "> 63")]
     kw = [("break;", "continue;"), ("continue;", "break;"), ("true", "false"), ("false", "true"),
           (".is_rtl()", ".is_ltr()"), (".is_ltr()", ".is_rtl()"), ("Some(", "None.or(Some("), (".rev()", ""),
-          ("start", "end"), (".last()", ".first()"), ("max(", "min("), ("min(", "max(")]
+          ("start", "end"), (".last()", ".first()"), ("max(", "min("), ("min(", "max("),
+          (".is_none()", ".is_some()"), (".is_some()", ".is_none()"), ("LTR_LEVEL", "RTL_LEVEL"), ("RTL_LEVEL", "LTR_LEVEL"),
+          ("== L", "== R"), ("!= L", "!= R"), ("== e", "== not_e"), ("{ LRI } else { RLI }", "{ RLI } else { LRI }"),
+          ("= ON;", "= L;"), ("sos", "eos"), ("found_e", "found_not_e"), ("start_run", "end_run"),
+          ("start_char_len", "end_char_len"), ("prev_class_before_w4", "prev_class_before_w5"),
+          ("overflow_isolate_count", "overflow_embedding_count"), ("original_classes[", "processing_classes[")]
+    lit = [("0", "1"), ("1", "0"), ("1", "2"), ("2", "1"), ("2", "3"), ("63", "64"), ("63", "62")]
     for i, l in cl:
         code = strip_trailing_comment(l)
         if "fn " in code and ("<" in code):   # generic signatures
@@ -107,6 +113,13 @@ def sites_for(path):
                 if old == "start" and code[m.end():m.end() + 1] == "_":
                     continue
                 add(i, m.start(), m.end(), new, "kw:%s->%s" % (old, new or "ø"))
+        # integer literals (not inside type expressions such as `[u8; 4]`, not range/tuple-field syntax)
+        if "SmallVec::<" not in code and "; " + "8]" not in code:
+            for old, new in lit:
+                for m in re.finditer(r"(?<![\w.\[;])%s(?![\w.\]])" % re.escape(old), code):
+                    if re.search(r"\.\s*$", code[:m.start()]):
+                        continue
+                    add(i, m.start(), m.end(), new, "lit:%s->%s" % (old, new))
         # dropped alternative in `A | B | C` class lists (match arms and matches!)
         for m in re.finditer(r"(?<![A-Za-z_:])((?:BidiClass::)?[A-Z]{1,3})\s*\|\s*(?=(?:BidiClass::)?[A-Z]{1,3}\b)", code):
             add(i, m.start(), m.end(), "", "alt-drop:%s" % m.group(1))
